@@ -192,12 +192,13 @@ def gen_int_guards(rng, per_type=26, types=None):
             traits = list(INT_DERIVES)
             if not vitems:
                 traits[traits.index("TryFrom")] = "From"
-            dflt = None
+            default_arg = None
             if j % 3 == 0:
                 dv = [lo_v, hi_v, 7, 101, lo_v - 1 if lo_v > ity_min(ty) else lo_v][(j // 3) % 5]
                 dv = max(ity_min(ty), min(ity_max(ty), dv))
                 blocks.append([tid("default"), EQ, tx(lit_int(dv))])
                 traits.append("Default")
+                default_arg = ("i", dv)
             if j % 6 == 5:
                 blocks.append([tid("const_fn")])
                 # const fn cannot call closures: use paths only
@@ -212,6 +213,7 @@ def gen_int_guards(rng, per_type=26, types=None):
             d = Decl("d%d" % len(decls), ty, attr(blocks, trailing=(j % 4 == 3)), env=env,
                      tags={"guard", "int"})
             d.bounds = [lo_v, hi_v]
+            d.default_arg = default_arg
             decls.append(d)
         n += 1
     return decls
@@ -347,6 +349,7 @@ def gen_float_guards(rng, per_type=48, start=0):
             if vitems:
                 blocks.append(block("validate", vitems, trailing=(j % 5 == 0)))
             traits = list(FLOAT_DERIVES)
+            default_arg = None
             if "F" in shape:
                 traits += ["Eq", "Ord"]
             if not vitems:
@@ -356,6 +359,7 @@ def gen_float_guards(rng, per_type=48, start=0):
                 e = lit(dt.lstrip("-") if ("." in dt or "e" in dt.lower()) else dt.lstrip("-") + ".0")
                 blocks.append([tid("default"), EQ, tx(neg(e) if dt.startswith("-") else e)])
                 traits.append("Default")
+                default_arg = ("f", fbits(dt, is64))
             if j % 6 == 5 and "C" not in shape:
                 blocks.append([tid("const_fn")])
                 blocks = [[(t[0], t[1], "p", t[3]) if t[0] == "fn" else
@@ -367,6 +371,7 @@ def gen_float_guards(rng, per_type=48, start=0):
             d = Decl("f%d" % (start + len(decls)), ty, attr(blocks, trailing=(j % 4 == 3)), env=env,
                      tags={"guard", "float"})
             d.bounds = bounds
+            d.default_arg = default_arg
             decls.append(d)
     return decls
 
@@ -458,17 +463,20 @@ def gen_str_guards(rng, n=160, start=0):
         if vitems:
             blocks.append(block("validate", vitems))
         traits = list(STR_DERIVES)
+        default_arg = None
         if not vitems:
             traits[traits.index("TryFrom")] = "From"
         if j % 3 == 0:
             dv = ["ab", "", " Ab@ ", "abcdefgh", "x"][(j // 3) % 5]
             blocks.append([tid("default"), EQ, tx(estr(dv))])
             traits.append("Default")
+            default_arg = ("s", dv)
         blocks.append(derive_block(traits))
         if j % 2:
             blocks = blocks[-1:] + blocks[:-1]
         d = Decl("s%d" % (start + len(decls)), "String", attr(blocks, trailing=(j % 4 == 3)), env=env,
                  tags={"guard", "str"})
+        d.default_arg = default_arg
         decls.append(d)
     return decls
 
@@ -530,12 +538,14 @@ def gen_any_guards(rng, n=32, start=0):
         if vitems:
             blocks.append(block("validate", vitems))
         traits = list(ANY_DERIVES)
+        default_arg = None
         if not vitems:
             traits[traits.index("TryFrom")] = "From"
         if j % 3 == 0:
             dv = [[1, 2], [], [3, -1, 2, 5, 4], [0]][(j // 3) % 4]
             blocks.append([tid("default"), EQ, tx(elist(dv))])
             traits.append("Default")
+            default_arg = ("l", dv)
         blocks.append(derive_block(traits))
         if generic:
             d = Decl("a%d" % (start + len(decls)), "Vec<T>", attr(blocks), tags={"guard", "any", "generic"},
@@ -544,6 +554,7 @@ def gen_any_guards(rng, n=32, start=0):
             d.inner_concrete = "Vec<i32>"
         else:
             d = Decl("a%d" % (start + len(decls)), "Vec<i32>", attr(blocks), tags={"guard", "any"})
+        d.default_arg = default_arg
         decls.append(d)
     return decls
 
@@ -554,3 +565,85 @@ def any_inputs(d, rng):
     for _ in range(4):
         vals.append([rng.range(-9, 9) for _ in range(rng.range(0, 6))])
     return vals
+
+
+# ---------------------------------------------------------------- permutations (C07)
+
+def permutations(l):
+    if len(l) <= 1:
+        return [list(l)]
+    out = []
+    for i in range(len(l)):
+        for p in permutations(l[:i] + l[i + 1:]):
+            out.append([l[i]] + p)
+    return out
+
+
+def gen_perm_decls(rng, tier):
+    decls = []
+    int_types = ["i8", "u16"] if tier == "quick" else ["i8", "u8", "i32", "u64", "i128"]
+    n = 0
+    for ty in int_types:
+        for contradictory in (False, True):
+            for pi, perm in enumerate(permutations(["L", "U", "P"])):
+                env = []
+                lo, hi = (3, 10) if not contradictory else (10, 3)
+                items = []
+                for s in perm:
+                    if s == "L":
+                        items.append([tid(LOWER[pi % 2]), EQ, tx(spell_int(ty, lo, "const", env, "lo"))])
+                    elif s == "U":
+                        items.append([tid(UPPER[(pi // 2) % 2]), EQ, tx(spell_int(ty, hi, "const", env, "hi"))])
+                    else:
+                        items.append([tid("predicate"), EQ, tfn(0, "p", "p")])
+                d = Decl("pi%d" % n, ty, attr([block("validate", items), derive_block(["Debug", "Clone", "PartialEq"])]),
+                         env=env, tags={"perm", "int"})
+                d.bounds = [lo, hi]
+                d.default_arg = None
+                decls.append(d)
+                n += 1
+    n = 0
+    for ty in (["f32"] if tier == "quick" else ["f32", "f64"]):
+        is64 = FLOAT_TYPES[ty]
+        for pi, perm in enumerate(permutations(["L", "U", "F", "P"])):
+            env = []
+            items = []
+            for s in perm:
+                if s == "L":
+                    items.append([tid(LOWER[pi % 2]), EQ, tx(spell_float(ty, "-1.5", "lit", env, "lo"))])
+                elif s == "U":
+                    items.append([tid(UPPER[(pi // 2) % 2]), EQ, tx(spell_float(ty, "8.0", "const", env, "hi"))])
+                elif s == "F":
+                    items.append([tid("finite")])
+                else:
+                    items.append([tid("predicate"), EQ, tfn(0, "p", "p")])
+            d = Decl("pf%d" % n, ty, attr([block("validate", items), derive_block(["Debug", "Clone", "PartialEq"])]),
+                     env=env, tags={"perm", "float"})
+            d.bounds = [fbits("-1.5", is64), fbits("8.0", is64)]
+            d.default_arg = None
+            decls.append(d)
+            n += 1
+    n = 0
+    perms = permutations(["min", "max", "not_empty", "P", "R"])
+    if tier == "quick":
+        perms = perms[::2]
+    for pi, perm in enumerate(perms):
+        env = []
+        items = []
+        for s in perm:
+            if s == "min":
+                items.append([tid("len_char_min"), EQ, tx(lit("2"))])
+            elif s == "max":
+                items.append([tid("len_char_max"), EQ, tx(lit("4"))])
+            elif s == "not_empty":
+                items.append([tid("not_empty")])
+            elif s == "P":
+                items.append([tid("predicate"), EQ, tfn(0, "p", "p")])
+            else:
+                items.append([tid("regex"), EQ, tstr(REGEX_LITS[0]) if pi % 2 else tpath("RE0")])
+        d = Decl("ps%d" % n, "String", attr([block("validate", items), derive_block(["Debug", "Clone", "PartialEq"])]),
+                 env=env, tags={"perm", "str"})
+        d.default_arg = None
+        decls.append(d)
+        n += 1
+    return decls
